@@ -246,6 +246,315 @@ def run_r2(ctx, rule):
                     if mentions(e, lambda x: x[0] == "f" and x[2] in ("chunk_size", "valid_len", "pos_in_buf", "complete") and False):
                         pass
 
+# ---- R6: the byte-wise keyword scan is a prefix scan ---------------------------------------------------
+KW_FAST = "flussab_btor2::token::ascii_lowercase_u64"
+
+
+class _KExec:
+    """constant tracking over one body: integer/bool constants held by locals and by the variables a closure
+    captured by reference (`(*_1).k`), through copies, reborrows and stores; enough to see a stop flag at work"""
+
+    def __init__(self, fn):
+        self.fn = fn
+
+    def key_of(self, env, p):
+        """abstract cell named by a place: ('L', n) a local, ('U', k) a captured variable"""
+        pr = p["p"]
+        l = p["l"]
+        if not pr:
+            return ("L", l)
+        if pr == ["*"]:
+            return env.get(("P", l))
+        if len(pr) == 3 and pr[0] == "*" and isinstance(pr[1], dict) and "f" in pr[1] and pr[2] == "*" and l == 1 and self.fn.kind == "Closure":
+            return ("U", pr[1]["f"])
+        return None
+
+    def ptr_of(self, env, rv):
+        """the cell a reference value points to"""
+        if rv["k"] == "use":
+            a = rv["a"]
+            p = a.get("cp") or a.get("mv")
+            if p is None:
+                return None
+            pr = p["p"]
+            if not pr:
+                return env.get(("P", p["l"]))
+            if len(pr) == 2 and pr[0] == "*" and isinstance(pr[1], dict) and "f" in pr[1] and p["l"] == 1 and self.fn.kind == "Closure":
+                return ("U", pr[1]["f"])
+            return None
+        if rv["k"] == "ref":
+            return self.key_of(env, rv["p"])
+        return None
+
+    def val(self, env, o):
+        if "c" in o:
+            return o["c"].get("int")
+        p = o.get("cp") or o.get("mv")
+        k = self.key_of(env, p)
+        return env.get(k) if k is not None else None
+
+    def stmts(self, bb, env, on_store):
+        env = dict(env)
+        for s in self.fn.blocks[bb]["stmts"]:
+            if s["k"] != "assign":
+                continue
+            rv = s["rv"]
+            v = None
+            if rv["k"] == "use":
+                v = self.val(env, rv["a"])
+            elif rv["k"] == "un" and rv.get("op") == "Not":
+                x = self.val(env, rv["a"])
+                v = None if x is None else (0 if x else 1)
+            k = self.key_of(env, s["lhs"])
+            ptr = self.ptr_of(env, rv)
+            if k is None:
+                continue
+            on_store(k, v, rv, bb)
+            if v is None:
+                env.pop(k, None)
+            else:
+                env[k] = v
+            if k[0] == "L":
+                if ptr is not None:
+                    env[("P", k[1])] = ptr
+                else:
+                    env.pop(("P", k[1]), None)
+        return env
+
+    def succs(self, bb, env, on_store):
+        """[(next_bb | None for return, env)]"""
+        env = self.stmts(bb, env, on_store)
+        t = self.fn.term(bb)
+        k = t["k"]
+        if k == "return":
+            return [(None, env)]
+        if k == "goto":
+            return [(t["target"], env)]
+        if k == "switch":
+            d = t["discr"]
+            v = self.val(env, d)
+            p = d.get("cp") or d.get("mv")
+            out = []
+            arms = t["arms"]
+            if v is not None:
+                for a, tgt in arms:
+                    if a == v:
+                        return [(tgt, env)]
+                return [(t["otherwise"], env)]
+            # which cells hold the tested value: the operand itself and what it was copied from
+            cells = []
+            if p is not None:
+                kk = self.key_of(env, p)
+                if kk is not None:
+                    cells.append(kk)
+                    src = self.copied_from(bb, p)
+                    if src is not None:
+                        k2 = self.key_of(env, src)
+                        if k2 is not None:
+                            cells.append(k2)
+            for a, tgt in arms:
+                e2 = dict(env)
+                for c in cells:
+                    e2[c] = a
+                out.append((tgt, e2))
+            e2 = dict(env)
+            if t.get("ty") == "bool" and len(arms) == 1:
+                for c in cells:
+                    e2[c] = 0 if arms[0][0] else 1
+            out.append((t["otherwise"], e2))
+            return out
+        if k == "call":
+            env = dict(env)
+            d = self.key_of(env, t["dest"])
+            if d is not None:
+                env.pop(d, None)
+                if d[0] == "L":
+                    env.pop(("P", d[1]), None)
+            for a in t["args"]:
+                p = a.get("cp") or a.get("mv")
+                if p is not None and not p["p"]:
+                    tgt = env.get(("P", p["l"]))
+                    if tgt is not None:
+                        env.pop(tgt, None)  # handed out by reference: the callee may store to it
+            return [(t["target"], env)] if t.get("target") is not None else []
+        if k in ("assert", "drop"):
+            return [(t["target"], env)]
+        return []
+
+    def copied_from(self, bb, p):
+        if p["p"]:
+            return None
+        for s in reversed(self.fn.blocks[bb]["stmts"]):
+            if s["k"] == "assign" and s["lhs"] == {"l": p["l"], "p": []}:
+                if s["rv"]["k"] == "use":
+                    return s["rv"]["a"].get("cp") or s["rv"]["a"].get("mv")
+                return None
+        return None
+
+
+def _fz(env):
+    return frozenset(env.items())
+
+
+def prefix_scan(fn, start, wrap, lenkey, nonzero_return):
+    """Explore the iteration graph of a scan body.  An iteration runs from `start` to the next visit of `start`
+    (a closure called once per index: from its entry to its return).  Returns (n_iterations_without_hit, witness):
+    witness is a (block, what) reached in some later iteration after an iteration that recorded no hit."""
+    ex = _KExec(fn)
+    hit = [None]
+
+    def on_store(k, v, rv, bb):
+        if k == lenkey:
+            hit[0] = (bb, "the length is stored")
+        elif nonzero_return and k == ("L", 0) and v != 0:
+            hit[0] = (bb, "a byte other than 0 is returned")
+
+    def keep(env):
+        if wrap:
+            return {k: v for k, v in env.items() if k[0] == "U"}
+        return env
+
+    # phase A: one iteration from an arbitrary state; collect the states after iterations without a hit
+    ends = set()
+    seen = set()
+    work = [(start, _fz({}), False, True)]
+    while work:
+        bb, fe, had, first = work.pop()
+        if (bb, fe, had, first) in seen:
+            continue
+        seen.add((bb, fe, had, first))
+        if len(seen) > 20000:
+            return None, None
+        if bb == start and not first:
+            if not had:
+                ends.add(fe)
+            continue
+        hit[0] = None
+        for nb, env in ex.succs(bb, dict(fe), on_store):
+            h2 = had or hit[0] is not None
+            if nb is None:
+                if wrap and not h2:
+                    ends.add(_fz(keep(env)))
+                continue
+            work.append((nb, _fz(env), h2, False))
+        hit[0] = None
+    # phase B: any number of further iterations from those states must not record a hit
+    seen = set()
+    work = [(start, e) for e in ends]
+    while work:
+        bb, fe = work.pop()
+        if (bb, fe) in seen:
+            continue
+        seen.add((bb, fe))
+        if len(seen) > 20000:
+            return None, None
+        hit[0] = None
+        nxt = ex.succs(bb, dict(fe), on_store)
+        if hit[0] is not None:
+            return len(ends), hit[0]
+        for nb, env in nxt:
+            if nb is None:
+                if wrap:
+                    work.append((start, _fz(keep(env))))
+                continue
+            work.append((nb, _fz(env)))
+    return len(ends), None
+
+
+def run_r6(ctx, rule):
+    """The keyword kernel returns the length of the maximal run of lowercase letters at the offset (C14-R1 decides the
+    kernel lane-wise).  Input that arrives in pieces takes the byte-wise path; it must stop at the first byte
+    that is not a letter, or the same bytes give a different token depending on the read schedule.  Decided on
+    the iteration graph of the byte-wise scan: after an iteration that recorded no letter, no later iteration
+    can record one (the stop flag is followed as a constant through the captured variables)."""
+    facts = ctx.facts
+    roots = [k for k, n in facts.inst.items() if norm(n["def"]) == KW_FAST]
+    if not roots:
+        rule.bad("keyword-scan/anchor", "anchor missing: %s" % KW_FAST, kind="anchor-missing")
+        return
+    from . import cg
+    fam = set()
+    for k in cg.reach_above(facts, roots, set(LOOKS)):
+        d = facts.inst[k]["def"]
+        if facts.fns.get(d) is not None and facts.fns[d].crate == "flussab_btor2":
+            fam.add(d)
+    # closures constructed inside the family belong to it
+    ch = True
+    while ch:
+        ch = False
+        for d in list(fam):
+            for b in facts.fns[d].blocks:
+                for s in b["stmts"]:
+                    if s["k"] == "assign" and s["rv"]["k"] == "agg" and s["rv"].get("closure") and s["rv"]["closure"] in facts.fns and s["rv"]["closure"] not in fam:
+                        fam.add(s["rv"]["closure"])
+                        ch = True
+    bodies = [facts.fns[d] for d in sorted(fam) if any(norm(util.cname(t)) in LOOKS for _, t in facts.fns[d].calls())]
+    n = 0
+    for body in bodies:
+        nid = norm(body.id)
+        if body.kind == "Closure":
+            parent = facts.fns.get(body.j.get("parent")) or next((facts.fns[d] for d in fam if any(s["k"] == "assign" and s["rv"]["k"] == "agg" and s["rv"].get("closure") == body.id for b in facts.fns[d].blocks for s in b["stmts"])), None)
+        else:
+            parent = body
+        if parent is None:
+            rule.bad("%s/parent" % nid, "cannot find the function constructing the closure", body.loc(), kind="unmodelled-idiom")
+            continue
+        sy = sym(parent)
+        lenloc = None
+        for b in parent.blocks:
+            for s in b["stmts"]:
+                if s["k"] == "assign" and s["lhs"] == {"l": 0, "p": []} and s["rv"]["k"] == "agg" and s["rv"].get("ak") == "tuple" and len(s["rv"]["ops"]) == 2:
+                    e = sy.operand(s["rv"]["ops"][1])
+                    if e[0] == "l":
+                        lenloc = e[1]
+        if lenloc is None:
+            rule.bad("%s/length" % nid, "the returned length of %s is not a variable maintained by the scan" % short(norm(parent.id)), parent.loc(), kind="unmodelled-idiom")
+            continue
+        if body.kind == "Closure":
+            lenkey = None
+            via = None
+            for bi, b in enumerate(parent.blocks):
+                for s in b["stmts"]:
+                    if s["k"] == "assign" and s["rv"]["k"] == "agg" and s["rv"].get("closure") == body.id:
+                        for i, o in enumerate(s["rv"]["ops"]):
+                            e = sy.operand(o)
+                            if e == ("l", lenloc):
+                                lenkey = ("U", i)
+                        # the closure is handed to array::from_fn: called once per index, in order
+                        t = parent.term(bi)
+                        if t["k"] == "call":
+                            via = norm(util.cname(t))
+            if lenkey is None:
+                rule.bad("%s/length-capture" % nid, "the closure does not capture the length variable by reference", body.loc(), kind="unmodelled-idiom")
+                continue
+            if via != "core::array::from_fn":
+                rule.bad("%s/driver" % nid, "the closure is driven by %s, not by array::from_fn (calls in index order)" % via, body.loc(), kind="unmodelled-idiom")
+                continue
+            cnt, w = prefix_scan(body, 0, True, lenkey, True)
+            starts = [(0, cnt, w)]
+        else:
+            c = cfg(body)
+            looks = [bb for bb, t in body.calls() if norm(util.cname(t)) in LOOKS]
+            heads = sorted(set(h for h, blocks in c.loops().items() if any(x in blocks for x in looks)))
+            if not heads:
+                rule.bad("%s/loop" % nid, "the byte-wise scan is neither a loop nor a closure called per index", body.loc(), kind="unmodelled-idiom")
+                continue
+            starts = []
+            for h in heads:
+                cnt, w = prefix_scan(body, h, False, ("L", lenloc), False)
+                starts.append((h, cnt, w))
+        for h, cnt, w in starts:
+            n += 1
+            key = "%s/prefix-scan" % nid
+            if cnt is None:
+                rule.bad(key, "exploration of the scan's iteration graph did not terminate within its bound", body.loc(), kind="unmodelled-idiom")
+            elif w is not None:
+                rule.bad(key, "the byte-wise keyword scan goes on after a byte that is no lowercase letter: after an iteration that recorded no letter, a later one can reach block bb%d where %s -- pieces of input give a longer token than the same bytes in one piece" % (w[0], w[1]), body.loc(w[0]))
+            else:
+                rule.ok("byte-wise keyword scan %s: %d kinds of iterations record no letter, and none of them can be followed by one that does (prefix scan, like the word kernel)" % (short(nid), cnt), body.loc(h))
+    if n == 0:
+        rule.bad("keyword-scan/bodies", "no byte-wise scan body found below %s" % short(KW_FAST), kind="anchor-missing")
+
 
 def run(ctx):
     r1 = ctx.rule("C01-R1", "schedule dependent observations are used only in sanctioned shapes (selector, prefix slice, post-exhaustion, end test)", floor=25)
@@ -258,6 +567,8 @@ def run(ctx):
     r5 = ctx.rule("C01-R5", "the byte-wise digit scanners behave exactly as documented and the fast paths hand over to them unchanged (shared with C13-R3/R4)", floor=60)
     c13.run_r3(ctx, r5)
     c13.run_r4(ctx, r5)
+    r6 = ctx.rule("C01-R6", "the byte-wise keyword scan stops at the first byte that is not a letter, like the word kernel (prefix scan)", floor=1)
+    run_r6(ctx, r6)
     from .c09 import run_r1 as c09_r1
     r3 = ctx.rule("C01-R3", "Interrupted is handled only inside request_more, as a retry that touches no state (shared with C09-R1)", floor=8)
     c09_r1(ctx, r3)
